@@ -146,3 +146,25 @@ def runRace (b : Block) : Res :=
     stats := [s!"execs={(once.map (·.2)).foldl (· + ·) 0 + 1}", s!"once={once.length}", s!"outcome=race", s!"convs={once.length}"] }
 
 end ArgMapper.Driver
+
+namespace ArgMapper.Driver
+
+/-- `redefgen` blocks: Redefine over a converter produced by a generator while the graph is built;
+no model replay (generators are not modelled), only the property's observable: no body runs during
+Redefine, and the generated converter still runs (once) in a real call afterwards. -/
+def runRedefGen (b : Block) : Res :=
+  if b.head.contains "builderr" then { propNA := true } else
+  let bad := b.lines.findSome? (fun l =>
+    match l with
+    | "rd" :: k :: rest =>
+      if (kv rest "panic").getD "" = "true" then some s!"redefine_{k}_panicked"
+      else if (kv rest "execs").getD "0" ≠ "0" then some s!"redefine_{k}_executed_{(kv rest "execs").getD "?"}_user_function_bodies"
+      else none
+    | "call" :: rest =>
+      if (kv rest "ok").getD "" ≠ "true" then some "call_after_redefine_failed"
+      else if (kv rest "execs").getD "" ≠ "1" then some s!"generated_converter_executed_{(kv rest "execs").getD "?"}_times_in_the_real_call"
+      else none
+    | _ => none)
+  { conform := none, prop := bad, stats := ["execs=1", "outcome=ok", "size=1"] }
+
+end ArgMapper.Driver
